@@ -36,7 +36,7 @@ def reno_rules(pre, ev, r=None, ackno=None):
     if ev == 'new':
         cw = pre['ssthresh'] if pre['dupack'] > 0 else pre['cwnd']      # deflate first
         post['dupack'] = 0
-        post['cwnd'] = Ite(le(cw, pre['ssthresh']), cw + MSS, cw + Fraction(MSS * MSS) / cw)
+        post['cwnd'] = Ite(le(cw, pre['ssthresh']), cw + MSS, cw + (MSS * MSS) / cw)   # same term shape as the code: int / cwnd
         err = r - pre['srtt']
         post['srtt'] = pre['srtt'] + err / 8
         post['rttvar'] = pre['rttvar'] + (sabs(err) - pre['rttvar']) / 4
@@ -74,6 +74,11 @@ def h_reno(cfg):
     from onl.packet import TCPPacketGenerator, TCPReno, Flow, Packet
     env = Environment()
     flow = Flow(flow_id=0, src='s', dst='d', finish_time=INF, size=cfg['flow_mss'] * MSS)
+    if cfg.get('appl'):
+        # application-limited flow: data becomes available one MSS at a time at symbolic instants, so the sender
+        # sleeps inside its refill loop (and its window may shrink meanwhile)
+        from props.netcommon import DrawStub
+        flow.arrival_dist = DrawStub('ag', 'real', lo=0, n=cfg['flow_mss'] + 1, after=0)
     cwnd0 = sym_int('w0', 1, cfg['w0max']) * MSS
     cc = TCPReno(mss=MSS, cwnd=cwnd0, ssthresh=65535)
     rtt0 = sym_real('rtt0', 1)
@@ -90,7 +95,8 @@ def h_reno(cfg):
     def driver():
         yield env.timeout(0)
         # arbitrary state (documented invariants only)
-        cc.cwnd = sym_real('cwnd', MSS)
+        if not cfg.get('appl'):
+            cc.cwnd = sym_real('cwnd', MSS)
         cc.ssthresh = sym_real('ssthresh', MSS)
         snd.dupack = cfg.get('dupack0', 0)
         snd.est_deviation = sym_real('rttvar', 0)
@@ -248,6 +254,9 @@ def jobs(tier, seed):
             js.append({'harness': 'reno', 'weight': 3 ** len(h),
                        'cfg': {'events': h, 'flow_mss': 3, 'w0max': 2, 'dupack0': d0, 'max_timeouts': 1 if h else 2,
                                'maxadv': 2}, 'opts': {'max_paths': 4000 if tier == 'quick' else 20000}})
+    js.append({'harness': 'reno', 'weight': 200,
+               'cfg': {'events': [], 'flow_mss': 3, 'w0max': 4, 'dupack0': 0, 'max_timeouts': 2, 'maxadv': 2, 'appl': True},
+               'opts': {'max_paths': 6000 if tier == 'quick' else 30000}})
     for ssth in (None, 600):
         for dt, rtt in ((0.5, 0.25), (2.0, 1.0)):
             js.append({'harness': 'cubic', 'weight': 40,
